@@ -265,6 +265,8 @@ PROPS["C13"] = {
                     "for 5 ms <= LeaderLeaseTimeout < 10 ms the bound is lease + 10 ms (stated in DESIGN.md, outside the property's quantifier)"],
 }
 
+PROPS["C08"]["engines"].append(scenario("restore", "C08", 300, 5000))
+
 PROPS["C20"] = {
     "lean_module": "RaftVerif.Props.C20",
     "theorems": [
@@ -272,7 +274,7 @@ PROPS["C20"] = {
         T("UR.restore_refused_when_unstable", "refused, without effect, while a membership change is uncommitted or a leadership transfer is in progress"),
         T("UR.restore_burns_index", "max(meta.Index, last)+1 is above both"),
     ],
-    "engines": [scenario("restore", "C20", 100, 3000)],
+    "engines": [scenario("restore", "C20", 300, 5000)],
     "assumptions": [H3_NOTE, "user Restore is an epoch boundary: the agreed-history monitors of C02/C03 are not applied to restore runs; C20's monitor checks the leader's FSM at the restore, indexes of later writes, aborted writes, and the final states of all servers",
                     "the refusal clause is proved for the model and not exercised by the harness"],
     "level_note": "partial: the leader-side bookkeeping is a small hand-written model of restoreUserSnapshot; its tie is the H3 restore scenario only (no stepping).",
